@@ -365,8 +365,9 @@ package server
 //@ pred knownOp(op int) := op >= 0x1224 && op <= 0x1232
 
 //@ func Server.handleCommand results(err)
-//@   tags C03,C05,C04
+//@   tags C03,C05,C04,C16
 //@   requires s != nil && s.Handler != nil && wfCtx(ctx) && handlerInv(s.Handler, ctx) && fsize[ctx.rd.Reader] >= fpos[ctx.rd.Reader] && fpos[ctx.rd.Reader] >= 0
+//@   requires[C16] timeoutConfigured(ctx.rd.Reader) ==> deadlineOn[ctx.rd.Reader] @deadline-still-in-force-while-the-rest-of-the-request-is-read
 //@   modifies ctx.State, fopen, fpos, limbase, iofaults, fsw, walkroot, rwhdr, wn, wdata
 //@   let c = ctx.rd.Reader
 //@   let L = gbe16(ctx.rd.cmd.Data, 0)
@@ -391,9 +392,9 @@ package server
 //@ func Server.setConnReadDeadline results(err)
 //@   tags C16,C04
 //@   requires s != nil && conn != nil
-//@   modifies armed[conn]
-//@   ensures[C16] s.ReadTimeout > 0 && err == nil ==> armed[conn] @armed
-//@   ensures[C16] s.ReadTimeout <= 0 ==> err == nil && armed[conn] == old(armed[conn]) @no-timeout
+//@   modifies armed[conn], deadlineOn[conn]
+//@   ensures[C16] s.ReadTimeout > 0 && err == nil ==> armed[conn] && deadlineOn[conn] @armed
+//@   ensures[C16] s.ReadTimeout <= 0 ==> err == nil && armed[conn] == old(armed[conn]) && deadlineOn[conn] == old(deadlineOn[conn]) @no-timeout
 
 //@ func Server.deriveConnContext results(c)
 //@   tags C04
@@ -404,7 +405,7 @@ package server
 //@   requires s != nil && s.Handler != nil && conn != nil && limbase[conn] == 0 && wsink(conn) == conn && isconn[conn] && wsink(io.Discard) != conn
 //@   requires fpos[conn] >= 0 && (timeoutConfigured(conn) <==> s.ReadTimeout > 0)
 //@   requires forall x {handlerInv(s.Handler, x)} :: !allocated(x) ==> handlerInv(s.Handler, x) @fresh-context-satisfies-handler-invariant
-//@   modifies fopen, fpos, limbase, iofaults, fsw, walkroot, rwhdr, wn, wdata, armed, connclosed, nctxclosed
+//@   modifies fopen, fpos, limbase, iofaults, fsw, walkroot, rwhdr, wn, wdata, armed, deadlineOn, connclosed, nctxclosed
 //@   ensures[C13] nctxclosed == old(nctxclosed) + 1 && connclosed[conn] @released-on-every-exit
 //@   ensures[C05] !writeAllowed(s.Handler) ==> fsw == old(fsw) @read-only-unless-enabled
 //@   ensures[C03] outKept(conn) @responses-only-appended
